@@ -26,6 +26,8 @@ pub struct MNode {
     pub accessed: Ts,
     /// false once the library may legitimately have restamped the entry (directories written into)
     pub times_known: bool,
+    /// the entry got its current name (and so its alias) from the library in this history, not from a foreign writer
+    pub named_here: bool,
 }
 
 impl MNode {
@@ -78,6 +80,7 @@ pub enum Resolved {
 impl Model {
     pub fn new() -> Model {
         let root = MNode {
+            named_here: false,
             name: String::new(),
             alias: None,
             parent: 0,
@@ -154,6 +157,7 @@ impl Model {
             modified: now.floor_2s(),
             accessed: now.date_only(),
             times_known: true,
+            named_here: true,
         };
         let id = self.nodes.len();
         self.nodes.push(Some(n));
@@ -172,6 +176,7 @@ impl Model {
                 m.created = t.created;
                 m.modified = t.modified;
                 m.accessed = t.accessed;
+                m.named_here = false;
             }
             if t.is_dir {
                 self.import(n, &t.children);
@@ -194,6 +199,7 @@ impl Model {
         self.node_mut(n).parent = parent;
         self.node_mut(n).name = name.to_string();
         self.node_mut(n).alias = None;
+        self.node_mut(n).named_here = true;
         if let MKind::Dir(c) = &mut self.node_mut(parent).kind {
             c.push(n);
         }
@@ -275,6 +281,32 @@ impl Model {
             });
         }
         out
+    }
+
+    /// A lookup may reach an entry through its alias, which a plain tree of long names does not have. That stays
+    /// invisible to users of long names only as long as an alias the library makes up is either the name itself in
+    /// upper case (the name was a legal 8.3 name already; a trailing dot is not stored) or carries a numeric tail,
+    /// which no lossy conversion of another name can produce without a tail of its own. An alias that is neither
+    /// makes two names that differ for the tree (here: by a character the conversion drops) collide.
+    pub fn alias_outside_the_tree(&self) -> Option<String> {
+        for (i, n) in self.nodes.iter().enumerate() {
+            let Some(n) = n else { continue };
+            if i == 0 || !n.named_here || n.alias.is_none() {
+                continue;
+            }
+            let a = self.alias_display(i).unwrap();
+            let up: String = n.name.trim_end_matches('.').chars().map(|c| c.to_ascii_uppercase()).collect();
+            if a == up {
+                continue;
+            }
+            let base = a.split('.').next().unwrap_or("");
+            let digits = base.chars().rev().take_while(|c| c.is_ascii_digit()).count();
+            let numbered = digits > 0 && base.len() > digits && base.as_bytes()[base.len() - digits - 1] == b'~';
+            if !numbered {
+                return Some(format!("{} got the alias {:?}: not its own name in upper case and not a numbered form, so a different name ({:?}) now reaches it", self.path_of(i), a, a));
+            }
+        }
+        None
     }
 
     /// learn the aliases the library generated, from the independent decode of the raw image
